@@ -93,6 +93,7 @@ def boundaries(draw, style: str, n: int):
 
 SMALL_LABELS = st.sampled_from(["a", "b", "c", "", "a b", "A"])
 AB = st.sampled_from(["a", "b"])
+ABE = st.sampled_from(["a", "b", "", "a"])  # also blank-labelled entries (as kept by includeEmptyIntervals=True)
 
 FORMAT_TOKENS = [
     "item [2]:",
